@@ -54,7 +54,7 @@ def run_gens(pid, tier, seed, gens, driver, monitor, note, assumptions, need, sh
                           what="rule=%s op=%s family=%s step=%s %s" % (v["rule"], v.get("op", ""), f["family"], v["i"], describe(rep["ops"])),
                           replay={"driver": driver, "monitor": monitor, "rule": v["rule"], "verdict": v, "history": rep}))
     missing = [k for k in need if stats.get(k, 0) == 0]
-    if missing:
+    if missing and not fails:          # a verdict cuts its history short: counters may stay at zero because every history failed earlier
         raise vlib.ToolError("vacuous run: clause counters %s are zero: %s" % (missing, stats))
     fails.sort(key=lambda x: x["n"])       # smallest witness first per class
     coverage = dict(states=states, transitions=trans, traces_validated_against_impl=nh, records_validated=nrec, samples=samples,
@@ -145,7 +145,7 @@ def c10(pid, tier, seed):
 
 def c14(pid, tier, seed):
     q = tier == "quick"
-    alltpl = {"S", "B", "W", "SB", "SBWM", "B0", "WW", "WnM", "MnW", "L", "bad"}
+    alltpl = {"S", "B", "W", "SB", "SBWM", "B0", "WW", "WnM", "MnW", "L", "E", "bad"}
     gens = [
         gen("calls3", "MC_Style", dict(D=3, FirstTpls=alltpl, Tpls={"WW", "S", "WnM"} if q else alltpl, Level=2)),
     ]
